@@ -215,7 +215,7 @@ fn main() {
                         },
                         14 | 15 => call("move_p", &a, &b),
                         16 | 17 => call("copy", &a, &b),
-                        18 => call_b("copy_b", &a, &b, [0o700, 0o640, 0o555][rng.gen_range(0..3)], 0, "", ["a", "d", "f"][rng.gen_range(0..3)]),
+                        18 => call_b("copy_b", &a, &b, [0o700, 0o640, 0o555][rng.gen_range(0..3)], 0, "", ["a", "d", "f", "aF", "F"][rng.gen_range(0..5)]),
                         19 | 20 => call("set_cwd", &a, ""),
                         21 => call_m("chmod", &a, [0o755, 0o500, 0o644, 0o600, 0o777][rng.gen_range(0..5)], 0),
                         22 => call_m("chown", &a, rng.gen_range(1..5), rng.gen_range(1..5)),
